@@ -2973,10 +2973,10 @@ where
         let mut stats = InsertionStatistics::default();
         // Non-finite coordinates must never enter the triangulation (the bootstrap phase stores
         // vertices without evaluating any predicate, so nothing else would reject them).
-        if let Err(source) = vertex.point().validate() {
+        if let Err(source) = vertex.is_valid() {
             return Err(InsertionError::Construction(
                 TriangulationConstructionError::FailedToAddVertex {
-                    message: format!("vertex has invalid coordinates: {source}"),
+                    message: format!("vertex fails element validation: {source}"),
                 },
             ));
         }
